@@ -55,7 +55,9 @@ func main() {
 	layouts := flag.Bool("layouts", false, "debug: print extracted layouts of every codec type")
 	emit := flag.Bool("emit-golden", false, "write golden/golden.json from the current tree (done once, by hand)")
 	replay := flag.String("replay", "", "re-run the rule instance recorded in this violation file")
+	evdir := flag.String("evidence", "", "directory for evidence files (default <verif>/evidence)")
 	flag.Parse()
+	evidenceDir = *evdir
 	goldenDir = filepath.Join(*verif, "golden")
 
 	if *replay != "" {
@@ -88,8 +90,24 @@ func main() {
 		fmt.Println("wrote", filepath.Join(goldenDir, "golden.json"))
 		return
 	}
+	if *prop == "all" {
+		var ids []string
+		for id := range props {
+			ids = append(ids, id)
+		}
+		sort.Strings(ids)
+		rc := 0
+		for _, id := range ids {
+			if c := runProperty(a, *verif, id, *tier); c > rc {
+				rc = c
+			}
+		}
+		os.Exit(rc)
+	}
 	os.Exit(runProperty(a, *verif, *prop, *tier))
 }
+
+var evidenceDir string
 
 func runProperty(a *Analysis, verif, prop, tier string) int {
 	pi, ok := props[prop]
